@@ -101,3 +101,96 @@ Proof.
   destruct (add_intermediate_spec q p kids Hw Hc Hpc) as (k2 & A & B & _ & D0). rewrite A in H. inv H.
   split; [assumption |]. eapply closed_from_law; eauto.
 Qed.
+
+(* ---- the general case: any well-formed set --------------------------------------------------------------------------------------
+   ii_marks p t p': p' is a proper prefix of p and, in t, the node at p' has no child along p (so add creates that child
+   and, with include_intermediate, marks p'). *)
+Fixpoint ii_marks (q : quirks) (p : list key) (n : tnode) (p' : list key) : bool :=
+  match p, p' with
+  | [], _ => false
+  | k :: r, [] => match n with TDict kids => negb (ahas (inj q k) kids) | TTrue => false end
+  | k :: r, k' :: r' =>
+      key_eqb k' k &&
+      match n with
+      | TDict kids => match aget (inj q k) kids with
+                      | Some c => ii_marks q r c r'
+                      | None => is_prefix r' r && negb (path_eqb r' r)
+                      end
+      | TTrue => false
+      end
+  end.
+
+Lemma ii_marks_empty : forall q r r', ii_marks q r (TDict []) r' = is_prefix r' r && negb (path_eqb r' r).
+Proof.
+  intros q. induction r as [| k r IH]; intros r'.
+  - destruct r'; reflexivity.
+  - destruct r' as [| k' r'']; [reflexivity |]. cbn [ii_marks aget is_prefix path_eqb].
+    rewrite (key_eqb_sym k k'). destruct (key_eqb k' k); reflexivity.
+Qed.
+
+Theorem add_intermediate_general : forall q p kids, wf q (TDict kids) -> cleanp q p ->
+  exists kids',
+    add_go q true p (TDict kids) = Some (TDict kids', negb (memb q p (TDict kids))) /\
+    wf q (TDict kids') /\ kids' <> [] /\
+    forall p', cleanp q p' ->
+      memb q p' (TDict kids') = memb q p' (TDict kids) || path_eqb p' p || ii_marks q p (TDict kids) p'.
+Proof.
+  induction p as [| k r IH]; intros kids Hw Hc.
+  - destruct (add_spec q [] kids Hw Hc) as (kids' & A & B & C & D0).
+    exists kids'. split; [exact A |]. split; [exact B |]. split; [exact C |].
+    intros p' Hp'. rewrite (D0 p' Hp'). cbn [ii_marks]. rewrite orb_false_r. apply orb_comm.
+  - inv Hc. rename H1 into Hk, H2 into Hr. cbn [add_go memb]. rewrite Hk.
+    destruct (aget (MK k) kids) eqn:E.
+    + destruct (wf_child _ _ _ _ Hw E) as (ck & -> & Hne & Hck).
+      destruct (IH ck Hck Hr) as (ck' & Hadd & Hw' & Hne' & Hlaw).
+      unfold ahas. rewrite ?E. cbn [negb andb]. rewrite ?E. rewrite Hadd. rewrite orb_false_r.
+      exists (aset (MK k) (TDict ck') kids). split; [reflexivity |]. split; [| split].
+      * apply wf_aset; auto. split; [exact Hk |]. split; [| exact Hw']. destruct ck'; [congruence | exact I].
+      * apply aset_nonempty.
+      * intros p' Hp'. rewrite memb_aset_child by auto.
+        destruct p' as [| k' r']; cbn [path_eqb ii_marks orb memb]; rewrite ?Hk.
+        -- unfold ahas. rewrite E. cbn [negb]. rewrite !orb_false_r. reflexivity.
+        -- inv Hp'. rewrite H1. destruct (key_eqb k' k) eqn:Ek; cbn [andb orb]; [| rewrite !orb_false_r; reflexivity].
+           apply key_eqb_eq in Ek. subst. rewrite E. apply Hlaw. assumption.
+    + destruct (IH [] (wf_empty q) Hr) as (ck' & Hadd & Hw' & Hne' & Hlaw).
+      unfold ahas. rewrite ?E. cbn [negb andb].
+      rewrite (aget_aset_other MTerm (MK k)) by discriminate. rewrite aget_aset_same, Hadd. rewrite orb_true_r.
+      rewrite aset_swap_replace by discriminate.
+      exists (aset MTerm TTrue (aset (MK k) (TDict ck') kids)). split; [reflexivity |]. split; [| split].
+      * apply wf_aset; [| reflexivity]. apply wf_aset; auto. split; [exact Hk |]. split; [| exact Hw']. destruct ck'; [congruence | exact I].
+      * apply aset_nonempty.
+      * intros p' Hp'. destruct p' as [| k' r']; cbn [path_eqb ii_marks orb memb]; rewrite ?Hk.
+        -- unfold ahas. rewrite aget_aset_same, E. cbn [negb]. rewrite !orb_true_r. reflexivity.
+        -- inv Hp'. rewrite H1. rewrite (aget_aset_other MTerm (MK k')) by discriminate.
+           destruct (key_eqb k' k) eqn:Ek; cbn [andb orb].
+           ++ apply key_eqb_eq in Ek. subst. rewrite aget_aset_same, E. rewrite (Hlaw r' H2), memb_empty, ii_marks_empty. reflexivity.
+           ++ rewrite aget_aset_other; [rewrite !orb_false_r; reflexivity |]. intros F. inv F. rewrite key_eqb_refl in Ek. discriminate.
+Qed.
+
+(* what ii_marks says, in terms of the trie: a proper prefix of p whose next node along p is absent *)
+Lemma ii_marks_spec : forall q p kids p', wf q (TDict kids) -> cleanp q p -> cleanp q p' ->
+  (ii_marks q p (TDict kids) p' = true <->
+   exists k r, p = p' ++ k :: r /\ walk q (p' ++ [k]) (TDict kids) = Some None).
+Proof.
+  intros q. induction p as [| k r IH]; intros kids p' Hw Hc Hc'.
+  - cbn. split; [discriminate | intros (k & r & E & _); destruct p'; discriminate].
+  - inv Hc. rename H1 into Hk, H2 into Hr. destruct p' as [| k' r'].
+    + cbn [ii_marks app walk]. rewrite Hk. unfold ahas. split.
+      * intros H. exists k, r. split; [reflexivity |]. cbn [app walk]. rewrite Hk. destruct (aget (MK k) kids); [discriminate | reflexivity].
+      * intros (k0 & r0 & E & W). inv E. cbn [app walk] in W. rewrite Hk in W. destruct (aget (MK k0) kids); [| reflexivity].
+        cbn in W. discriminate.
+    + inv Hc'. cbn [ii_marks]. rewrite Hk. destruct (key_eqb k' k) eqn:Ek; cbn [andb].
+      * apply key_eqb_eq in Ek. subst k'. destruct (aget (MK k) kids) eqn:E.
+        -- destruct (wf_child _ _ _ _ Hw E) as (ck & -> & _ & Hck). rewrite (IH ck r' Hck Hr H2). split.
+           ++ intros (k0 & r0 & -> & W). exists k0, r0. split; [reflexivity |]. cbn [app walk]. rewrite Hk, E. exact W.
+           ++ intros (k0 & r0 & E0 & W). inv E0. exists k0, r0. split; [reflexivity |]. cbn [app walk] in W. rewrite Hk, E in W. exact W.
+        -- split.
+           ++ intros H. apply andb_true_iff in H as [H1' H2']. apply (proj1 (relative_spec r r')) in H1' as (s & ->).
+              destruct s as [| k0 s0]; [rewrite app_nil_r in H2'; rewrite (proj2 (path_eqb_eq r' r') eq_refl) in H2'; discriminate |].
+              exists k0, s0. split; [reflexivity |]. cbn [app walk]. rewrite Hk, E. reflexivity.
+           ++ intros (k0 & r0 & E0 & _). inv E0. apply andb_true_iff. split.
+              ** apply (proj2 (relative_spec (r' ++ k0 :: r0) r')). eauto.
+              ** apply negb_true_iff. destruct (path_eqb r' (r' ++ k0 :: r0)) eqn:F; [| reflexivity].
+                 apply path_eqb_eq in F. apply (f_equal (@length key)) in F. rewrite app_length in F. cbn in F. lia.
+      * split; [discriminate |]. intros (k0 & r0 & E0 & _). inv E0. rewrite key_eqb_refl in Ek. discriminate.
+Qed.
